@@ -9,7 +9,7 @@ for n in 1 2 3; do
   if ! git -C $WT apply "$d" 2>/dev/null; then echo "RF $id#$n APPLY-FAILED"; continue; fi
   if ! (cd $WT && go build -trimpath ./... >/dev/null 2>&1); then echo "RF $id#$n BUILD-FAILED"; git -C $WT checkout -q -- .; continue; fi
   EV=$(mktemp -d /tmp/rfev.XXXX)
-  out=$(/verif/bin/verifchk -repo $WT -prop all -tier ${TIER:-quick} -evidence $EV 2>&1 | grep -A3 '^VIOLATION' | cut -c1-420)
+  out=$(${VERIFCHK:-/verif/bin/verifchk} -repo $WT -prop all -tier ${TIER:-quick} -evidence $EV 2>&1 | grep -A3 '^VIOLATION' | cut -c1-420)
   rm -rf $EV
   if [ -z "$out" ]; then echo "RF $id#$n SILENT ($(git -C $WT diff --stat | tail -1 | sed 's/^ *//'))"; else echo "RF $id#$n FIRED ($(git -C $WT diff --stat | tail -1 | sed 's/^ *//'))"; echo "$out"; fi
   git -C $WT checkout -q -- . ; git -C $WT clean -fdq
